@@ -194,6 +194,10 @@ def run(ctx):
     ok = isinstance(rt, tuple) and rt[0] == 'agg' and isinstance(strip(rt[2]), tuple) and strip(rt[2])[0] == 'call' and strip(rt[2])[1] == cj.path and \
         [util.param_index(x) for x in strip(rt[2])[2:5]] == [1, 2, 3] and util.is_param(rt[3], 3)
     ctx.check(ok, 'R15.2', 'new', nw.where(0), nw.path, 'Jacobian::new must store compute_jacobian(robot, qs, epsilon) and the same epsilon')
+    # the matrix is obtained by differencing forward(): it is the geometric Jacobian of the robot only if forward() is the
+    # robot's forward kinematics (one joint convention in forward() and in the link model) - the clauses of C03 are re-checked here
+    from . import C03
+    C03.run(ctx)
 
 
 def _unwrap_v6(t):
